@@ -83,27 +83,32 @@ def _pad_list_fallback(k: Kernel) -> str:
     return f"def {k.name} (dims : List (Int × Int)) : List Int := Crop.padPairs false dims\n"
 
 
+from . import c10_inline as IL
+
+_pt = {"target_dim": "target_dim", "input_dim": "input_dim"}
 register("C10", [
+    # the bounds of the returned window `data[..., a:b, c:d]` (names of locals and helper extraction do not matter)
     Kernel("center_crop_width_lower", T, "center_crop", _cc_params, "(fun dn2 sn2 _ _ => Crop.centerCropLower dn2 sn2)",
-           straightline(_cc_binds, "width_lower"), imports=CROP),
+           IL.return_slice_bound(_cc_binds, 2, "lower"), imports=CROP),
     Kernel("center_crop_width_upper", T, "center_crop", _cc_params,
-           "(fun dn2 sn2 _ _ => Crop.centerCropLower dn2 sn2 + sn2)", straightline(_cc_binds, "width_upper"), imports=CROP),
+           "(fun dn2 sn2 _ _ => Crop.centerCropLower dn2 sn2 + sn2)", IL.return_slice_bound(_cc_binds, 2, "upper"), imports=CROP),
     Kernel("center_crop_height_lower", T, "center_crop", _cc_params, "(fun _ _ dn1 sn1 => Crop.centerCropLower dn1 sn1)",
-           straightline(_cc_binds, "height_lower"), imports=CROP),
+           IL.return_slice_bound(_cc_binds, 1, "lower"), imports=CROP),
     Kernel("center_crop_height_upper", T, "center_crop", _cc_params,
-           "(fun _ _ dn1 sn1 => Crop.centerCropLower dn1 sn1 + sn1)", straightline(_cc_binds, "height_upper"), imports=CROP),
+           "(fun _ _ dn1 sn1 => Crop.centerCropLower dn1 sn1 + sn1)", IL.return_slice_bound(_cc_binds, 1, "upper"), imports=CROP),
     Kernel("center_crop_rejects", T, "center_crop", _cc_params,
            "(fun dn2 sn2 dn1 sn1 => !(Crop.centerCropOk dn2 sn2) || !(Crop.centerCropOk dn1 sn1))",
            guard_condition(_cc_binds, 0), ret_type="Bool", imports=CROP),
     Kernel("complex_center_crop_start", T, "complex_center_crop", ["n", "s"], "Crop.cccStart",
-           assign_value({"image_shape[idx + offset]": "n", "shape[idx]": "s"}, "bbox[idx + offset]"), imports=CROP),
+           IL.assign_rhs({"image_shape[idx + offset]": "n", "shape[idx]": "s"}, "bbox[idx + offset]"), imports=CROP),
     Kernel("complex_center_crop_size", T, "complex_center_crop", ["n", "s"], "(fun _ s => s)",
-           assign_value({"image_shape[idx + offset]": "n", "shape[idx]": "s"}, "bbox[len(image_shape) + idx + offset]"),
+           IL.assign_rhs({"image_shape[idx + offset]": "n", "shape[idx]": "s"}, "bbox[len(image_shape) + idx + offset]"),
            imports=CROP),
+    # per-axis amounts: looked for in the loop body and in the private helpers it calls
     Kernel("pad_tensor_before", T, "pad_tensor", ["target_dim", "input_dim"], "Crop.padBefore",
-           straightline({"target_dim": "target_dim", "input_dim": "input_dim"}, "pad_before", _loop_body(0)), imports=CROP),
+           IL.local_value(_pt, "pad_before", _loop_body(0)), imports=CROP),
     Kernel("pad_tensor_after", T, "pad_tensor", ["target_dim", "input_dim"], "Crop.padAfter",
-           straightline({"target_dim": "target_dim", "input_dim": "input_dim"}, "pad_after", _loop_body(0)), imports=CROP),
+           IL.local_value(_pt, "pad_after", _loop_body(0)), imports=CROP),
 ])
 
 
@@ -113,7 +118,9 @@ def _c10_extra():
     k = Kernel("pad_tensor_pad_list", T, "pad_tensor", [], "")
     try:
         fn = find_function(parse_file(REPO / T), "pad_tensor")
-        return f"/-- translated from `{T}`:`pad_tensor` (loop + reversal) -/\n" + _pad_list_build(k, fn), {k.name: "translated"}
+        k.file = T
+        return (f"/-- translated from `{T}`:`pad_tensor` (the list handed to F.pad, as built: iteration order, pair, reversals) -/\n"
+                + IL.pad_list(k, fn), {k.name: "translated"})
     except Untranslatable as e:
         return f"/-- SKIPPED ({e}) -/\n" + _pad_list_fallback(k), {k.name: f"skipped: {e}"}
 
